@@ -122,7 +122,7 @@ pub struct Checked {
 
 fn child_artefacts(c: &Case) -> Option<Artefacts> {
     use std::io::Write;
-    let dir = std::env::temp_dir().join(format!("mmv-c15-{}", std::process::id()));
+    let dir = std::env::current_dir().unwrap_or_else(|_| std::env::temp_dir()).join(format!("mmv-c15-{}", std::process::id()));
     let _ = std::fs::create_dir_all(&dir);
     let cf = dir.join("case.json");
     {
